@@ -77,6 +77,27 @@ class IsCompletedObserver(FeatureObserver):
             if FeatureType.MACHINES in self.features:
                 self.remaining_ops_per_machine[operation.machines, 0] += 1
 
+        # An observer created on a partly dispatched dispatcher reports what
+        # it would report had it been subscribed from the start.
+        scheduled_operations = self.dispatcher.scheduled_operations()
+        if not scheduled_operations:
+            return
+        if FeatureType.OPERATIONS in self.features:
+            completed_operations = [
+                op.operation_id
+                for op in self.dispatcher.completed_operations()
+            ]
+            self.features[FeatureType.OPERATIONS][completed_operations, 0] = 1
+        for operation in scheduled_operations:
+            if FeatureType.MACHINES in self.features:
+                self.features[FeatureType.MACHINES][operation.machines, 0] = (
+                    self.remaining_ops_per_machine[operation.machines, 0] == 0
+                )
+            if FeatureType.JOBS in self.features:
+                self.features[FeatureType.JOBS][operation.job_id, 0] = (
+                    self.remaining_ops_per_job[operation.job_id, 0] == 0
+                )
+
     def reset(self):
         self.initialize_features()
 
